@@ -212,12 +212,101 @@ def stream_pairs(ctx, n_quick=110, n_thorough=1500):
     return cases, results
 
 
+def pair_cases_from_build(rng, bc):
+    """derive reduction / generating-function cases from a (disagreeing) case of the structural stream"""
+    out = []
+    kind = bc.get('kind')
+    fam = base.KIND_FAMILY.get(kind)
+    if fam not in ('nested', 'nested_mu', 'cnlmu') or len(bc.get('util', [])) < 2:
+        return out
+    syn = (bc.get('syntaxes') or ['legacy'])[0]
+
+    def fresh():
+        c = copy.deepcopy(bc)
+        for k in ('fault', 'syntaxes'):
+            c.pop(k, None)
+        c['util'] = [[k, v if 'e' in v else {'e': ['Num', v['n']]}] for k, v in c['util']]
+        return c
+
+    if fam == 'nested':
+        c = fresh()
+        finish(rng, c)
+        calls = [{'name': 'AV', 'fn': 'AV'}, {'name': 'V', 'fn': 'V'},
+                 {'name': 'lnG', 'fn': 'lnG_nested', 'syntax': syn}, {'name': 'G', 'fn': 'gen', 'syntax': syn}]
+        for k, _ in c['util']:
+            calls.append({'name': f'Gp{k}', 'fn': 'gen', 'bump': [k, H_BUMP], 'syntax': syn})
+            calls.append({'name': f'Gm{k}', 'fn': 'gen', 'bump': [k, -H_BUMP], 'syntax': syn})
+        c['calls'] = calls
+        c['pair_kind'] = 'gen'
+        out.append(c)
+        c = fresh()
+        force = {}
+        for j, nst in enumerate(c['nests']):
+            nst[0] = one_variant(rng, f'MU{j + 1}')
+            for nm in beta_names(nst[0]):
+                force[nm] = 1
+        finish(rng, c, force)
+        c['calls'] = [{'name': 'AV', 'fn': 'AV'},
+                      {'name': 'lhs', 'fn': 'nested', 'syntax': syn}, {'name': 'rhs', 'fn': 'logit'},
+                      {'name': 'lhs_log', 'fn': 'lognested', 'syntax': syn}, {'name': 'rhs_log', 'fn': 'loglogit'}]
+        c['pair_kind'] = 'mu1'
+        out.append(c)
+    else:
+        c = fresh()
+        c['mu'] = one_variant(rng, 'MU')
+        finish(rng, c, {'MU': 1})
+        fns = (('nested_mev_mu', 'nested', 'lognested_mev_mu', 'lognested') if fam == 'nested_mu'
+               else ('cnlmu', 'cnl', 'logcnlmu', 'logcnl'))
+        c['calls'] = [{'name': 'AV', 'fn': 'AV'},
+                      {'name': 'lhs', 'fn': fns[0], 'syntax': syn}, {'name': 'rhs', 'fn': fns[1], 'syntax': syn},
+                      {'name': 'lhs_log', 'fn': fns[2], 'syntax': syn}, {'name': 'rhs_log', 'fn': fns[3], 'syntax': syn}]
+        c['pair_kind'] = 'mu_one_nested' if fam == 'nested_mu' else 'mu_one_cnl'
+        out.append(c)
+    return out
+
+
+def search_failing_input(ctx):
+    st = ctx.streams.get('build')
+    if st is None or not st.disagreements:
+        return
+    rng = ctx.sub_rng('search')
+    cases = []
+    for d in st.disagreements[:40]:
+        try:
+            cases += pair_cases_from_build(rng, d['case'])
+        except Exception:  # noqa
+            continue
+    if not cases:
+        return
+    results = run_value_cases(ctx, cases)
+    n = 0
+    ps = ctx.stream('pairs', '')
+    for c, res in zip(cases, results):
+        if 'exc' in res:
+            continue
+        kind = c['pair_kind']
+        for r in range(len(c['rows'])):
+            bad = oracle_gen(c, res, r) if kind == 'gen' else oracle_pair(c, res, r)
+            ps.record({'search': True, 'kind': kind, 'row': c['rows'][r], 'util': c['util']}, nontrivial=bad is not None)
+            for what_kind, what, detail in bad or []:
+                if 'exc' in str(what):
+                    continue
+                n += 1
+                ctx.violation(f'C06/pairs/{kind}/{what_kind}', what,
+                              {'case': c, 'row_index': r, 'row': c['rows'][r]},
+                              'both sides agree', detail,
+                              how='PYTHONPATH=/repo/src /venv/bin/python /verif/lib/impl/c05_values.py < [case]')
+    ctx.notes['failing_input_search'] = {'cases': len(cases), 'oracle_failures': n}
+
+
 def run(ctx):
     ctx.assumptions += ASSUME
     ctx.trusted += TRUSTED
     ctx.build()
     base.stream_build(ctx, n_quick=200, n_thorough=3000)
     stream_pairs(ctx)
+    if ctx.broken and not ctx.violations:
+        search_failing_input(ctx)
 
 
 def gen_all(ctx):
